@@ -53,7 +53,10 @@ PROPS["C18"] = dict(
                 "code-page tables (symbolic index pairs) are decided exhaustively by CBMC on the real functions.",
 )
 
+KIND_NOTE = ("the terminal-state units are instantiated per property for the kind of buffer the property speaks about (spec fn vx_buffer_kind in vx/prelude/term_specs.rs, "
+             "part of the state invariant): is_terminal_buffer == true for C01 / C09, == false for the file loaders of C02, both (two runs, a case split) for C03")
 TERM_TRUST = COMMON_TRUST + [
+    KIND_NOTE,
     "S1/S2: assumed specs of std functions in vx/prelude/std_shims.rs (max/min shims, i32::saturating_add/sub, char::from_u32)",
     "S4: derived Clone of Line is structural (external_body impl in vx/prelude/term_specs.rs)",
     "S6: std's blanket impl<T> From<T> for T is the identity (axiom_position_into_self, axiom_size_into_self)",
@@ -70,6 +73,7 @@ TERM_REMAINDER = [
 
 EMU_UNITS = ["emu_ascii", "emu_atascii", "emu_avatar", "emu_viewdata", "emu_mode7", "emu_ctrla", "emu_pcboard", "emu_renegade", "emu_petscii"]
 PROPS["C01"] = dict(
+    buffer_kind="terminal",
     units=["term_core", "ansi_cmds"] + EMU_UNITS,
     kani_quick=["c01_ctrla_table_len", "c01_parse_next_number_nonneg", "std_spec_char_range_contains", "std_spec_i32_saturating_mul"],
     trusted_base=TERM_TRUST, unverified_remainder=TERM_REMAINDER,
@@ -79,6 +83,7 @@ PROPS["C01"] = dict(
                 "(term_step) with a bounded growth per character.",
 )
 PROPS["C09"] = dict(
+    buffer_kind="terminal",
     units=["term_core", "ansi_cmds"] + EMU_UNITS,
     trusted_base=TERM_TRUST, unverified_remainder=TERM_REMAINDER + ["Viewdata / Mode 7 fixed-grid frame conditions (unit small_emus)"],
     explanation="caret_in_view (column in 0..width, row within the last `height` rows) is a postcondition of every clamping "
@@ -86,6 +91,7 @@ PROPS["C09"] = dict(
                 "moves (lf, bs, print_char, print_value).",
 )
 PROPS["C03"] = dict(
+    buffer_kind=["terminal", "picture"],
     units=["term_core", "ansi_cmds", "emu_avatar", "sixel", "dcs_macro", "macro_rec", "fonts", "icy_load", "buf_sauce"],
     trusted_base=TERM_TRUST + ["String / &str byte lengths are uninterpreted but consistent (O1 stubs str_len / string_len in unit dcs_macro)"],
     unverified_remainder=TERM_REMAINDER + ["macro recursion: unit macro_rec proves that invoke_macro_by_id dispatches characters only at nesting depth <= 16, restores the depth and never raises the expansion budget; that the dispatcher (print_char, not under contract as a whole) leaves both fields alone is ASSUMED - no other code writes them",
@@ -112,10 +118,14 @@ PROPS["C11"] = dict(
                 "lemma_cut_exact composes writer and reader: what write_sauce_info appended is exactly what is cut.",
 )
 PROPS["C02"] = dict(
-    units=["sauce", "xbin_load", "fonts", "bin_load", "idf_load", "tnd_load", "tdf_load", "icy_load", "buf_sauce", "palette_load", "buf_new"],
-    trusted_base=LOADER_TRUST,
+    buffer_kind="picture", also_tags=["C01"],
+    units=["sauce", "xbin_load", "fonts", "bin_load", "idf_load", "tnd_load", "tdf_load", "icy_load", "buf_sauce", "palette_load", "buf_new",
+           "term_core", "ansi_cmds", "emu_ascii", "emu_atascii", "emu_avatar", "emu_ctrla", "emu_pcboard", "emu_renegade", "emu_petscii"],
+    trusted_base=LOADER_TRUST + TERM_TRUST[len(COMMON_TRUST):],
     unverified_remainder=["IcyDraw (unit icy_load): read_utf8_encoded_string and the two layer-chunk blocks of load_buffer (first chunk: title, fixed header, picture or first rows of cells; continuation chunk: further rows / picture bytes) are sliced out of the function and proved total on every payload up to 1 GiB, with the declared layer size capped at 65535 x 65535 before rows are allocated; NOT decided: the chunk dispatch itself (PNG decoder callbacks, zTXt, base64, the regex on the chunk name, `get_mut(layer_num)`, the ICED / PALETTE / SAUCE / FONT arms - FONT calls BitFont::from_bytes, proved in unit fonts), (both further defects a sub-agent saw on the clean tree - Buffer::from_bytes on a path without extension and Palette::load_palette(Ase) = todo!() - are now obligations of units sauce and palette_load and were repaired)", "Palette::load_palette: only the dispatch over the formats is decided (no reachable panic macro, ASE returns an error); the five regex-driven text parsers are opaque arms (rule ARMBODY)",
-                          "text formats load through parse_with_parser -> an emulation on a non-terminal buffer (C01's unit covers terminal buffers)"],
+                          "text formats (ans ice diz pcb avt asc msg an1-an9 seq ata) load through parse_with_parser -> one emulation step per character on a buffer that is NOT a terminal buffer: the state invariant term_inv and every "
+                          "step contract of units term_core / ansi_cmds / emu_* hold for both kinds of buffer (the cursor row of a picture buffer is clamped to 0..65534 instead of the view), so each character step is proved panic-free and to grow the picture by a bounded "
+                          "number of rows - for pictures up to 132 x 60 columns/rows of *screen* size (the term_inv bounds; a SAUCE record may declare more: not decided). NOT decided: the loader shells around the steps (convert_ansi_to_utf8, the char loop and the sixel wait loop of parse_with_parser, crop_loaded_file, the SAUCE size handling of each format's load_buffer) and the dispatcher of the ANSI parser (as in C01)"],
     explanation="Each loader function under contract is total: no precondition on the data, and every slice, index, subtraction, "
                 "unwrap and assert obligation is discharged from the length tests in the code.",
 )
